@@ -64,3 +64,7 @@ Proof. intro t. reflexivity. Qed.
 
 Lemma src_nested_ok : nested_ok exec_range_src = true.
 Proof. vm_compute. reflexivity. Qed.
+
+(* the fences found in the source: WakeThreads (scheduler side) and WaitForTasks (worker side) *)
+Lemma src_no_lost_wakeup : lost_wakeup_possible wake_fenced_src wait_fenced_src = false.
+Proof. vm_compute. reflexivity. Qed.
